@@ -129,6 +129,15 @@ func kvScripts() [][][]string {
 		{{"set", "k1", ""}, {"mget", "k1", "k2", "k1"}, {"set", "k2", "0"}, {"mget", "k2", "k1", "k9"}},
 		{{"setrange", "k9", "5", "ab"}, {"get", "k9"}, {"strlen", "k9"}, {"setrange", "k9", "1", "Z"}, {"get", "k9"}},
 		{{"setrange", "k8", "-3", "q"}, {"get", "k8"}, {"setrange", "k7", "0", ""}, {"mget", "k7", "k8"}, {"type", "k7"}},
+		// RENAME moves the value with its own deadline (was: the overwritten key's deadline was kept, the source's dropped)
+		{{"set", "k1", "old", "px", "1000"}, {"set", "k2", "7", "px", "3000"}, {"rename", "k1", "k2"}, {"pttl", "k2"}, {"get", "k2"}, {"get", "k1"}, {"pttl", "k1"}},
+		{{"set", "k1", "p"}, {"set", "k2", "7", "px", "3000"}, {"rename", "k1", "k2"}, {"pttl", "k2"}, {"ttl", "k2"}, {"get", "k2"}},
+		{{"set", "k1", "a", "ex", "100"}, {"rename", "k1", "k3"}, {"ttl", "k3"}, {"expiretime", "k3"}, {"set", "k2", "b", "ex", "100"}, {"rename", "k2", "k3"}, {"ttl", "k3"}, {"rename", "k3", "k3"}, {"ttl", "k3"}},
+		// INCR / DECR / INCRBY / DECRBY at the int64 boundary fail and leave the value (was: the result wrapped around)
+		{{"decrby", "k2", "-9223372036854775808"}, {"get", "k2"}, {"set", "k1", "9223372036854775807"}, {"incr", "k1"}, {"get", "k1"},
+			{"incrby", "k1", "1"}, {"decrby", "k1", "-1"}, {"incrby", "k1", "-9223372036854775808"}, {"get", "k1"}, {"decr", "k1"}, {"decr", "k1"}, {"get", "k1"}},
+		{{"set", "k1", "-9223372036854775808", "px", "5000"}, {"decr", "k1"}, {"decrby", "k1", "9223372036854775807"}, {"incrby", "k1", "-1"}, {"pttl", "k1"},
+			{"decrby", "k1", "-9223372036854775808"}, {"get", "k1"}, {"set", "k2", "-1"}, {"decrby", "k2", "-9223372036854775808"}, {"incr", "k2"}, {"get", "k2"}},
 	}
 }
 
